@@ -417,9 +417,20 @@ func (mp *mergeProcessor) processBlock(
 			return nil
 		}
 
-		err = coreblock.ProcessBlock(ctx, crdt, block, blockLink)
-		if err != nil {
-			return err
+		// A field block can be linked from more than one composite (two nodes that make the same
+		// change to a field write the very same block). It is applied, and becomes a head, only once.
+		isMerged := false
+		if !dagBlock.Delta.IsComposite() && !dagBlock.Delta.IsCollection() {
+			isMerged, err = isAlreadyMerged(ctx, crdt.HeadstorePrefix(), dagBlock, blockLink.Cid)
+			if err != nil {
+				return err
+			}
+		}
+		if !isMerged {
+			err = coreblock.ProcessBlock(ctx, crdt, block, blockLink)
+			if err != nil {
+				return err
+			}
 		}
 	}
 
@@ -450,6 +461,53 @@ func (mp *mergeProcessor) processBlock(
 	}
 
 	return nil
+}
+
+// isAlreadyMerged returns true if the given block is one of the heads found under the given
+// headstore prefix, or an ancestor of one of them.
+func isAlreadyMerged(
+	ctx context.Context,
+	headstorePrefix keys.HeadstoreKey,
+	block *coreblock.Block,
+	blockCid cid.Cid,
+) (bool, error) {
+	txn := datastore.CtxMustGetTxn(ctx)
+	headCids, maxHeight, err := coreblock.NewHeadSet(txn.Headstore(), headstorePrefix).List(ctx)
+	if err != nil {
+		return false, err
+	}
+	height := block.Delta.GetPriority()
+	if height > maxHeight {
+		// an ancestor is lower than its descendant
+		return false, nil
+	}
+
+	visited := make(map[cid.Cid]struct{})
+	queue := headCids
+	for len(queue) > 0 {
+		current := queue[0]
+		queue = queue[1:]
+		if current == blockCid {
+			return true, nil
+		}
+		if _, ok := visited[current]; ok {
+			continue
+		}
+		visited[current] = struct{}{}
+
+		currentBlock, err := loadBlockFromBlockStore(ctx, current)
+		if err != nil {
+			return false, err
+		}
+		if currentBlock.Delta.GetPriority() <= height {
+			// the ancestors of this block are lower than the block we are looking for
+			continue
+		}
+		for _, parent := range currentBlock.Heads {
+			queue = append(queue, parent.Cid)
+		}
+	}
+	return false, nil
 }
 
 // mergeLinkedDocumentCommit merges the given document commit, and any of its ancestors that have
